@@ -55,6 +55,10 @@ class Profile:
         self.includes = False
         self.text = False
         self.edge_weight = 0.45
+        self.call_weight = 3
+        self.min_calls = 0
+        self.loop_weight = 1
+        self.if_weight = 2
         for k, v in kw.items():
             if not hasattr(self, k):
                 raise AttributeError(k)
@@ -157,11 +161,11 @@ class ProgGen:
             if p.scopes and not in_macro and not in_loop:
                 ks += ["scope"]
             if p.loops:
-                ks += ["for"]
+                ks += ["for"] * p.loop_weight
             if p.ifs:
-                ks += ["if"] * 2
+                ks += ["if"] * p.if_weight
             if p.macros and self.macros:
-                ks += ["call"] * 3
+                ks += ["call"] * p.call_weight
         return ks
 
     def skeleton(self, gs: GS, n: int, depth: int, in_macro=False, in_loop=False, allow_calls=None):
@@ -491,6 +495,11 @@ class ProgGen:
         n = rng.randint(3, self.p.max_stmts)
         self.budget = n
         skel = self.skeleton(self.root, n, 0)
+        if self.macros:
+            ncalls = sum(1 for nd in skel if nd["k"] == "call")
+            while ncalls < self.p.min_calls:
+                skel.insert(rng.randint(0, len(skel)), {"k": "call", "m": rng.choice(self.macros)})
+                ncalls += 1
         ir = list(head)
         ir.append({"k": "org", "a": self.rom_address()})
         # macro definitions come first (they must precede their applications); bodies are filled with the
